@@ -2,13 +2,14 @@
    ExtrOcamlBasic only (bool, option, list, prod, unit, sumbool mapped to
    OCaml's); Z, positive, nat stay as extracted inductives; no Extract Constant. *)
 From Coq Require Import ExtrOcamlBasic.
-From NX Require Import Bytes Reply Wire Query Forwarder Profile Discovery ProxyResolve Mdns CacheTTL Resolver Manager Listen Handler ResolvConf Config ClientInfo Router.
+From NX Require Import Bytes Reply Wire Query Forwarder Profile Discovery ProxyResolve Mdns CacheTTL Resolver Manager Listen Handler ResolvConf Config ClientInfo Router Refresh.
 Extraction Language OCaml.
 Extraction "model.ml"
   udp_adjust udp_reply tcp_frame tc_bit c05_udp_ok c05_tcp_ok
   parse handle serve upstream_payload servfail find_opts c13_ok c01_ok
   new_fwd fwd_set fwd_resolve spec_get split_dots fqdn
   pset pget pget_spec mkProfile mkClient mkCidr masked
+  refresh mkRS mkStat mkSnapF
   read_hosts hosts_lookup_host hosts_lookup_addr read_dnsmasq read_dhcpd lease_lookup_host lease_lookup_addr lease_lookup_mac
   append_uniq insert_sorted read_client_list str_lt
   update_ttl adjusted_response ttl_ok min_serves_ok
